@@ -39,11 +39,11 @@ TEXT = {
             'self-referential definitions and redefinition of built-ins are excluded syntactically as in the statement', 'exhaustive single/double fault injection on real inputs; totality oracle with watchdog'),
     'C08': ('fault_enumeration', 'Every well-formed catalogue document must be silent (no mark, no diagnostic); every fault form of the statement injected in every slot with tail lengths 0..15 must give a complete mark located at the diagnostic position with the surrounding words preserved.',
             'fault forms are the eleven named in the statement', 'exhaustive fault placement x tail length; oracle: mark iff diagnostic, located, text preserved'),
-    'C09': ('model_checking', 'Definition menu x definers x use shapes x three supply routes; oracle is a substitution interpreter over the AST plus route equivalence up to a constant shift.',
+    'C09': ('model_checking', 'Definition menu x definers x use shapes x three supply routes x option variants (Latin-1, --nosp with the README preamble, text in front of the definitions, --extr); oracle is a substitution interpreter over the AST plus route equivalence up to a constant shift.',
             'non-recursive definitions with undelimited parameters only', TECH + '; substitution interpreter + differential route oracle'),
     'C10': ('model_checking', 'All formula bodies up to 3 atoms, 1-4 formulas per document in every context, three languages; oracle is a rotation-counter model of the placeholder collections.',
             'atom menu stands for maths material of its kind', TECH + '; rotation model'),
-    'C11': ('model_checking', 'Equation trees rows x sections x parts over a part menu, all frames, languages, simple mode; oracle is the README rewriting system written over the tree.',
+    'C11': ('model_checking', 'Equation trees rows x sections x parts over a part menu, all frames, languages, simple mode (also with --nosp); positions of words, generated characters and generated white space; oracle is the README rewriting system written over the tree.',
             'number of blanks between items is not fixed by the documented scheme and is normalised', TECH + '; README rewriting system as model'),
     'C12': ('model_checking', 'All trees of language constructs (insertions, environments, \\selectlanguage at top level / in insertions / in footnotes / in headings, footnotes, font arguments, headings) up to the bound x thresholds x insertion sizes x main languages x trailing-macro and shorthand-probe variants; oracle is a language-stack model: one part per word, right label, text expanded with the settings of its label, placeholder rule for flat short insertions, no split at a same-language insertion, conservation against the single-language run.',
             'joining across nested / empty insertions is outside the model (statement fixes labels only there)', TECH + '; language stack model'),
@@ -64,7 +64,7 @@ TEXT = {
             'explicit-state exploration of call histories on the real interpreter with state hashing; fresh-process differential oracle'),
     'C18': ('model_checking', 'Extraction: listed/unlisted macros in every context. Inclusion: all 2197 inclusion graphs over three files x start lists x skip patterns through the real top-level shell code; oracle is a 7-line work-list model; CLI conformance.',
             'three files suffice to exhibit cycles, self-inclusion and duplicates', TECH + '; work-list model over all graphs'),
-    'C19': ('model_checking', 'Documents with declared and undeclared names in every context, before/after definitions, package selections; oracle: ordered set of first uses.',
+    'C19': ('model_checking', 'Documents with declared and undeclared names in every context, before/after definitions, package selections and package lists, babel and glossary constructs; oracle: ordered set of first uses.',
             'contexts are those of the statement', TECH + '; first-use list model'),
     'C20': ('model_checking', 'create_single_letter_matches on all texts up to length 5/6 over 11 symbols x 12 accept lists and create_equation_punct_messages on all token sequences up to 4/5 x 3 modes, compared with matchers written without re; offset/length/context must select the same characters.',
             'overlapping accepted occurrences and glued placeholders are outside the model (statement silent)', TECH + ' (matchers without re)'),
